@@ -66,6 +66,8 @@ int main() {
     for (int i = 0; i < 12; i++) printf("#define PREC_%s %d\n", pn[i], static_cast<int>(pv[i])); }
   SZ("Type_Conversions", Type_Conversions) OFF("TC_mutex", Type_Conversions, m_mutex) OFF("TC_conversions", Type_Conversions, m_conversions) OFF("TC_types", Type_Conversions, m_convertableTypes) OFF("TC_num_types", Type_Conversions, m_num_types) OFFOPT("TC_thread_cache", Type_Conversions, m_thread_cache)
   { using TCB = detail::Type_Conversion_Base; SZ("TCB", TCB) OFF("TCB_to", TCB, m_to) OFF("TCB_from", TCB, m_from) }
+  OFF("CB_engine", ChaiScript_Basic, m_engine) OFF("CB_active_loaded_modules", ChaiScript_Basic, m_active_loaded_modules)
+  SZ("CB_State", ChaiScript_Basic::State) OFF("CBS_used_files", ChaiScript_Basic::State, used_files) OFF("CBS_engine_state", ChaiScript_Basic::State, engine_state) OFF("CBS_active_loaded_modules", ChaiScript_Basic::State, active_loaded_modules)
   SZ("ChaiScript_Basic", ChaiScript_Basic) OFF("CB_mutex", ChaiScript_Basic, m_mutex) OFF("CB_use_mutex", ChaiScript_Basic, m_use_mutex) OFF("CB_used_files", ChaiScript_Basic, m_used_files) OFF("CB_use_paths", ChaiScript_Basic, m_use_paths)
   OFF("FNF_filename", exception::file_not_found_error, filename) SZ("FNF", exception::file_not_found_error)
   { using B = eval::Binary_Operator_AST_Node<eval::Noop_Tracer>; using F = eval::Fold_Right_Binary_Operator_AST_Node<eval::Noop_Tracer>; using Pn = eval::Prefix_AST_Node<eval::Noop_Tracer>;
